@@ -202,7 +202,7 @@ def gen_float_model(rnd):
   expect_fold = []
   names = iter("abcdefghij")
   for _ in range(rnd.randint(2, 4)):
-    t = rnd.choice(["conv_bn", "dw_bn", "conv", "conv_branch_bn", "conv_act_bn", "act_statsonly_bn", "frozen_conv"])
+    t = rnd.choice(["conv_bn", "dw_bn", "conv", "conv_branch_bn", "conv_act_bn", "act_statsonly_bn", "frozen_conv", "convT_bn"])
     n = next(names)
     ub = bool(rnd.randint(0, 1))
     if t == "conv_bn":
@@ -230,6 +230,10 @@ def gen_float_model(rnd):
       x = L.BatchNormalization(center=False, scale=False, name="sbn_" + n)(x)
     elif t == "frozen_conv":
       x = L.Conv2D(rnd.randint(1, 3), 1, use_bias=True, trainable=False, name="conv_" + n)(x)
+    elif t == "convT_bn":
+      # a transposed convolution (a subclass of Conv2D) followed by BN: there is no folded class for it, it stays as it is
+      x = L.Conv2DTranspose(rnd.randint(1, 3), 2, padding="same", use_bias=ub, name="ct_" + n)(x)
+      x = L.BatchNormalization(name="tbn_" + n)(x)
     if rnd.random() < 0.4:
       x = L.Activation("relu", name="act_" + n)(x)
   return tf.keras.Model(inp, x), expect_fold
